@@ -56,6 +56,11 @@ MILLI_SECONDS = (
 
 assert len(set(INSTANT_DAYS)) == 40 and len(set(MILLI_SECONDS)) == 24 and set(QUICK_INSTANT_DAYS) <= set(INSTANT_DAYS)
 
+# host-type and delivery-channel differential (core.Env): 1 evaluation in 4 that binds variables is repeated in one of the
+# three variants (values from the cell listener, from a custom function, as instances of subclasses - a pandas Timestamp is a
+# datetime subclass); on top of the cell-listener differential every date-time evaluation already gets in val()
+CHANNELS = 12
+
 BOUNDS = {
     'quick': 'days: every day of 12 boundary years (%s) + first and last day of every month of every year '
              '1900..9999 (198 495 days); serials: the reference serials of those days (>= 61); offsets '
